@@ -16,13 +16,13 @@ CONSTANTS
   Amts = {2, 4}
   Mins = {0, 1}
   Liqs = {2}
-  Donations = {1}
+  Donations = {}
   DlOffs = {1}
   MaxNow = 1
   Senders = {"u1"}
   Recipients = {"u1", "u2", "feepool", "module"}
   MaxSteps = 5
-  DonateAlso = {"module", "feepool"}
+  DonateAlso = {}
   WithUni = FALSE
 VIEW ViewDepth
 INVARIANTS
